@@ -147,6 +147,71 @@ var findings = []finding{
 		}
 		return false
 	}},
+	// IFS=' :'; set --; v=' :b'; args $*$v -> bash 1<b>, interp 2<><b>; a=('' ':x');
+	// args ${a[*]} -> bash 1<x>, interp 2<><x>; set -- ' ' ' '; IFS=': '; args $@ ->
+	// bash 0, interp 1<>: bash splits the elements of an unquoted list one by
+	// one and lets a null expansion swallow the empty field that a leading
+	// non-whitespace delimiter of the next value would create; the
+	// interpreter splits the joined text.
+	{"C22-ifs-nonws-null-adjacent", func(s Sub) bool {
+		ifs, _ := s.ifsValue()
+		if s.Assign || strings.Trim(ifs, " \t\n") == "" {
+			return false
+		}
+		wsOnly := func(v string) bool {
+			for _, r := range v {
+				if !strings.ContainsRune(ifs, r) || !isIFSWhite(r) {
+					return false
+				}
+			}
+			return true
+		}
+		leadDelim := func(v string) bool {
+			for _, r := range v {
+				if strings.ContainsRune(ifs, r) && isIFSWhite(r) {
+					continue
+				}
+				return strings.ContainsRune(ifs, r)
+			}
+			return false
+		}
+		null, lead := false, false
+		for _, p := range s.Parts {
+			switch p.Kind {
+			case "arr", "pos":
+				elems := s.A
+				if p.Kind == "pos" {
+					elems = s.Params
+				}
+				for _, e := range elems {
+					if wsOnly(e) || leadDelim(e) {
+						return true
+					}
+				}
+				// a list next to a delimiter-led value: `v=' ::'; set -- b;
+				// args ${v}$@` is 2<><b> in bash, 3<><><b> with ${v}${w} and in dash
+				null = true
+			case "var", "cmd":
+				val := s.W
+				if p.Kind == "cmd" {
+					val = strings.TrimRight(p.Ref, "\n")
+				} else if p.Ref == "v" {
+					val = s.V
+				}
+				if leadDelim(val) {
+					lead = true
+				}
+				if val == "" {
+					null = true
+				}
+			}
+		}
+		if null && lead {
+			// a null expansion or a list anywhere in the word (before or after)
+			return true
+		}
+		return false
+	}},
 	// x=\a; echo "$x" prints \a: expand.Literal (assignments) keeps the
 	// backslash of an unquoted escape instead of removing it.
 	{"C22-literal-backslash-kept", func(s Sub) bool {
